@@ -94,7 +94,7 @@ def quote(item):
 
 def _pp_hook(v, val):
     import pyparsing as pp
-    hooks = [_pp_hook]
+    hooks = [_pp_hook, _pa_hook]
     if isinstance(v, ExtRef) and v.name.startswith('pyparsing.'):
         obj = pp
         for part in v.name.split('.')[1:]:
@@ -120,8 +120,40 @@ def _pp_hook(v, val):
             return g.parseString(s)
         except pp.ParseException:
             raise Raised('pyparsing.ParseException')
+    if isinstance(v, T) and v.op == 'attr' and isinstance(v.args[0], T) \
+            and v.args[0].op == 'exc' and \
+            v.args[0].args[0] == 'pyparsing.ParseException' and \
+            len(v.args[0].args) > 1:
+        # an attribute of the ParseException a parse raised (loc, msg ...)
+        call = v.args[0].args[1]
+        g = ev(call.args[0], val, hooks)
+        s = ev(call.args[2], val, hooks)
+        try:
+            g.parseString(s)
+        except pp.ParseException as e:
+            return getattr(e, v.args[1])
+        raise CannotEval('the parse does not fail')
     if isinstance(v, T) and v.op == 'call' and v.args[0] == 'list':
         return list(ev(v.args[1], val, hooks))
+    return NotImplemented
+
+
+def _pa_hook(v, val):
+    """Elements configured with a parse action (shared with C18)."""
+    if isinstance(v, T) and v.op == 'parseaction':
+        from .c18 import _pp_hook as h18
+        import pyparsing as pp
+        base = ev(v.args[0], val, [_pp_hook, _pa_hook]).copy()
+        params, body = v.args[1], v.args[2]
+
+        def action(s_, l_, t_):
+            v2 = dict(val)
+            # pyparsing hands the last len(params) of (s, loc, toks)
+            for p_, x in zip(params, (s_, l_, t_)[3 - len(params):]):
+                v2[p_] = x
+            return ev(body, v2, [_pp_hook, _pa_hook])
+        base.setParseAction(action)
+        return base
     return NotImplemented
 
 
@@ -146,6 +178,11 @@ def _split_by_commas(ctx):
         interp.pure_methods.update({'parseString', 'parse_string'})
         interp.method_raises['parseString'] = ['pyparsing.ParseException']
         interp.method_raises['parse_string'] = ['pyparsing.ParseException']
+        interp.call_raises['[]'] = ['IndexError']
+        from .c18 import _rebind_parse_action
+        for n in ('setParseAction', 'set_parse_action', 'addParseAction',
+                  'add_parse_action'):
+            interp.rebind_methods[n] = _rebind_parse_action
     outcomes, _i = extract(world, thunk, setup=setup)
     alphabet = ('a', 'b', ',', '"', '\\', ' ', 'a b', 'x,y', '', 'ab',
                 'a,,b', ',,', 'a\\"b', '\\"', '"\\', '\\\\"')
@@ -173,6 +210,7 @@ def _split_by_commas(ctx):
         cases['%s,q' % c] = ('return', [c, 'q'])
         cases['q,"a b",%s%s' % (c, c)] = ('return', ['q', 'a b', c + c])
     for bad in ('a,', ',a', 'a,,b', '"a', 'a"b', '"a"b', 'a b', '', ',',
+                ' ', '  ', '\t', '\n',
                 '"a",', 'a,"b', '"a""b"', 'a,b"'):
         cases[bad] = ('raise', 'ValueError')
     grid = tuple(cases)
@@ -181,7 +219,8 @@ def _split_by_commas(ctx):
         return cases[v['value']]
     grid_compare(rep, 'R19.2', 'split_by_commas', 'joined item lists and '
                  'malformed quoting', outcomes, {value: grid}, oracle,
-                 hooks=[_pp_hook], value_eq=lambda g, w: list(g) == list(w))
+                 hooks=[_pp_hook, _pa_hook],
+                 value_eq=lambda g, w: list(g) == list(w))
 
 
 def run(ctx):
